@@ -2,43 +2,147 @@
  * build_schema of src/reader/file_reader.c on a symbolic element list. */
 #include "cqv.h"
 #include <stdlib.h>
-#ifndef CQV_N
-#define CQV_N 5          /* element list length bound of the bounded jobs */
-#endif
-#ifndef CQV_NC
-#define CQV_NC 4         /* num_children bound of the bounded jobs */
-#endif
-#define SPEC_SCHEMA_MAXN CQV_N
-#include "schema_spec.h"
 #ifndef CQV_FR_MAXN
-#define CQV_FR_MAXN (1 << 27)
+#define CQV_FR_MAXN 0x7fffffff
 #endif
-long cqv_work; int cqv_depth, cqv_depth_max;   /* ghost: calls of traverse_schema_recursive, recursion depth */
+/* ghosts, see contracts/file_reader_schema.ovl */
+int32_t cqv_cap; const int32_t *cqv_L; int16_t cqv_exp_def, cqv_exp_rep; _Bool cqv_trav_entered, cqv_count_link;
 #include "src/reader/file_reader.c"
+#ifdef CQV_REAL_REC
+/* bounded whole-tree job: the contract twin is given the real behaviour (plain recursion) */
+static int32_t traverse_schema_recursive__rec(schema_traverse_ctx_t *ctx, int32_t element_idx, int16_t def_level, int16_t rep_level) {
+  return traverse_schema_recursive(ctx, element_idx, def_level, rep_level);
+}
+#endif
 
-void h_count_leaves(void) {
-  const parquet_schema_element_t *e = nondet_ptr();
+/* independent reading of the format: contribution of one node to the levels */
+#define SPEC_DEF_CONTRIB(e) (((e)->has_repetition && ((e)->repetition_type == CARQUET_REPETITION_OPTIONAL || (e)->repetition_type == CARQUET_REPETITION_REPEATED)) ? 1 : 0)
+#define SPEC_REP_CONTRIB(e) (((e)->has_repetition && (e)->repetition_type == CARQUET_REPETITION_REPEATED) ? 1 : 0)
+
+static schema_traverse_ctx_t cx;
+static int32_t t_idx; static int16_t t_def, t_rep;
+/* arbitrary traversal state: element list of any length, leaf arrays with cqv_cap entries, ghost
+ * suffix leaf count cqv_L with its defining facts at the instances the proof uses */
+static void mk_ctx(void) {
   int32_t n = nondet_i32();
-  if (n > 0) { __CPROVER_assume(n <= CQV_FR_MAXN); e = malloc((size_t)n * sizeof(*e)); __CPROVER_assume(e != NULL); }
+  __CPROVER_assume(n >= 0 && n <= CQV_FR_MAXN);
+  parquet_schema_element_t *e = malloc((size_t)n * sizeof(*e));
+  int32_t *L = malloc(((size_t)n + 1) * sizeof(int32_t));
+  cqv_cap = nondet_i32();
+  __CPROVER_assume(cqv_cap >= 0 && cqv_cap <= n);
+  int16_t *md = malloc((size_t)cqv_cap * sizeof(int16_t)), *mr = malloc((size_t)cqv_cap * sizeof(int16_t));
+  int32_t *li = malloc((size_t)cqv_cap * sizeof(int32_t));
+  __CPROVER_assume(e && L && md && mr && li);
+  cqv_L = L;
+  cx.elements = e; cx.num_elements = n; cx.max_def = md; cx.max_rep = mr; cx.leaf_indices = li;
+  cx.leaf_idx = nondet_i32(); cx.depth = nondet_i32(); cx.too_deep = nondet_bool();
+  t_idx = nondet_i32(); t_def = (int16_t)nondet_i32(); t_rep = (int16_t)nondet_i32();
+  __CPROVER_assume(t_idx >= 0 && t_idx <= n);
+  __CPROVER_assume(t_def >= 0 && t_def <= 1000 && t_rep >= 0 && t_rep <= t_def);
+  /* definition of the ghost suffix leaf count at the instances used */
+  __CPROVER_assume(L[n] == 0 && L[t_idx] >= 0 && L[t_idx] <= n);
+  if (t_idx < n) __CPROVER_assume(L[t_idx + 1] >= 0 && L[t_idx + 1] <= n && (int64_t)L[t_idx] == (int64_t)L[t_idx + 1] + (e[t_idx].num_children == 0 ? 1 : 0));
+  cqv_trav_entered = 0;
+  if (t_idx < n) { cqv_exp_def = (int16_t)(t_def + SPEC_DEF_CONTRIB(&e[t_idx])); cqv_exp_rep = (int16_t)(t_rep + SPEC_REP_CONTRIB(&e[t_idx])); }
+}
+
+/* (b) whole function against its contract; recursive calls = contract twin */
+void h_traverse(void) {
+  mk_ctx();
+  int32_t r = traverse_schema_recursive(&cx, t_idx, t_def, t_rep);
+  CQV_CANARY("traverse returns");
+  if (r == t_idx) CQV_CANARY("traverse: past the end");
+  if ((int64_t)r > (int64_t)t_idx + 1) CQV_CANARY("traverse: group consumed several elements");
+}
+
+/* (a) LEAF lemma: the recorded levels are the textbook ones */
+void h_traverse_leaf(void) {
+  mk_ctx();
+  int32_t n = cx.num_elements, li = cx.leaf_idx;
+  __CPROVER_assume(t_idx < n && cx.depth >= 0 && cx.depth < CARQUET_MAX_SCHEMA_DEPTH && li >= 0 && li < cqv_cap);
+  const parquet_schema_element_t *e = &cx.elements[t_idx];
+  __CPROVER_assume(e->num_children == 0);
+  int dc = SPEC_DEF_CONTRIB(e), rc = SPEC_REP_CONTRIB(e);
+  int32_t depth0 = cx.depth; _Bool td0 = cx.too_deep;
+  int32_t r = traverse_schema_recursive(&cx, t_idx, t_def, t_rep);
+  __CPROVER_assert(r == t_idx + 1, "leaf: consumes exactly one element");
+  __CPROVER_assert(cx.leaf_idx == li + 1, "leaf: one column more");
+  __CPROVER_assert(cx.leaf_indices[li] == t_idx, "leaf: column maps to this element");
+  __CPROVER_assert(cx.max_def[li] == t_def + dc, "leaf: max_def == inherited + (OPTIONAL or REPEATED)");
+  __CPROVER_assert(cx.max_rep[li] == t_rep + rc, "leaf: max_rep == inherited + (REPEATED)");
+  __CPROVER_assert(cx.depth == depth0 && cx.too_deep == td0, "leaf: depth and flag untouched");
+  if (dc == 1 && rc == 1) CQV_CANARY("leaf: repeated leaf reached");
+  if (dc == 1 && rc == 0) CQV_CANARY("leaf: optional leaf reached");
+  if (dc == 0) CQV_CANARY("leaf: required leaf reached");
+  CQV_CANARY("leaf lemma end");
+}
+
+/* count_leaves: stays inside the list, terminates, result in [0, count] */
+void h_count_leaves(void) {
+  int32_t n = nondet_i32();
+  parquet_schema_element_t *e = NULL;
+  if (n > 0) { e = malloc((size_t)n * sizeof(*e)); __CPROVER_assume(e != NULL); }
+  cqv_count_link = 0;
   int32_t r = count_leaves(e, n);
   CQV_CANARY("count_leaves returns");
 }
 
-/* all element lists with <= CQV_N elements, child counts 0..CQV_NC (plus one attacker value), any
- * repetition labels: build_schema stays inside its arrays; for lists that are exactly one tree the
- * result equals the textbook definition */
-static parquet_file_metadata_t md;
-static carquet_arena_t arena;
-static spec_node_t sn[CQV_N];
-static carquet_schema_t *mk_file_schema(int32_t *pn) {
+/* (c) build_schema + compute_levels on any element list; traverse_schema_recursive and count_leaves
+ * replaced by their contracts.  Root children receive levels 0/0 (cqv_exp_* = 0, binding from the
+ * first call on). */
+void h_build_schema(void) {
+  static parquet_file_metadata_t md;
+  static carquet_arena_t arena;
+  carquet_error_t err;
   int32_t n = nondet_i32();
-  __CPROVER_assume(n >= 0 && n <= CQV_N);
+  __CPROVER_assume(n <= CQV_FR_MAXN);
+  size_t cnt = n > 0 ? (size_t)n : 0;
+  parquet_schema_element_t *e = malloc(cnt * sizeof(*e));
+  int32_t *L = malloc((cnt + 1) * sizeof(int32_t));
+  __CPROVER_assume(e && L);
+  cqv_L = L;
+  /* ghost suffix leaf count: instances used here */
+  __CPROVER_assume(L[cnt] == 0 && L[0] >= 0 && L[0] <= n);
+  if (n >= 2) __CPROVER_assume(L[1] >= 0 && L[1] <= L[0]);
+  cqv_cap = n > 0 ? L[0] : 0;
+  cqv_count_link = 1; cqv_trav_entered = 1; cqv_exp_def = 0; cqv_exp_rep = 0;
+  md.schema = e; md.num_schema_elements = n;
+  _Bool have_err = nondet_bool();
+  if (have_err) err.code = CARQUET_OK;
+  carquet_schema_t *s = build_schema(&arena, &md, have_err ? &err : NULL);
+  if (s) {
+    CQV_CANARY("build_schema can succeed");
+    __CPROVER_assert(s->elements == e && s->num_elements == n, "schema refers to the file's element list");
+    __CPROVER_assert(s->num_leaves == cqv_cap && s->num_leaves >= 0 && (n <= 0 || s->num_leaves <= n), "column count == number of leaves");
+    __CPROVER_assert(__CPROVER_r_ok(s->leaf_indices, (size_t)s->num_leaves * 4) && __CPROVER_r_ok(s->max_def_levels, (size_t)s->num_leaves * 2) && __CPROVER_r_ok(s->max_rep_levels, (size_t)s->num_leaves * 2), "leaf arrays hold num_leaves entries");
+  } else {
+    CQV_CANARY("build_schema can fail");
+    __CPROVER_assert(!have_err || err.code != CARQUET_OK, "failure reports a non-OK code");
+    __CPROVER_assert(!have_err || err.message[CARQUET_ERROR_MESSAGE_MAX - 1] == 0, "error message NUL-terminated");
+  }
+  CQV_CANARY("build_schema harness end");
+}
+
+#ifdef CQV_REAL_REC
+#ifndef CQV_N
+#define CQV_N 4
+#endif
+#define SPEC_SCHEMA_MAXN CQV_N
+#include "schema_spec.h"
+/* (3) every WELL-FORMED element list (exactly one tree) with <= CQV_N elements, any repetition labels:
+ * build_schema == textbook definition (specs/schema_spec.h) */
+void h_file_schema_spec(void) {
+  static parquet_file_metadata_t md;
+  static carquet_arena_t arena;
+  static spec_node_t sn[CQV_N];
+  int32_t n = nondet_i32();
+  __CPROVER_assume(n >= 2 && n <= CQV_N);
   parquet_schema_element_t *e = malloc((size_t)n * sizeof(*e));
   __CPROVER_assume(e != NULL);
   for (int i = 0; i < CQV_N; i++) {
     if (i < n) {
       int32_t nc = nondet_i32();
-      __CPROVER_assume(nc >= 0 && nc <= CQV_NC);
+      __CPROVER_assume(nc >= 0 && nc < CQV_N);
       int rep = nondet_int();
       _Bool hr = nondet_bool();
       e[i].num_children = nc; e[i].has_repetition = hr; e[i].repetition_type = (carquet_field_repetition_t)rep;
@@ -47,42 +151,25 @@ static carquet_schema_t *mk_file_schema(int32_t *pn) {
       sn[i].is_repeated = hr && rep == CARQUET_REPETITION_REPEATED;
     }
   }
+  /* the root contributes nothing ("required by definition") */
+  sn[0].is_optional = 0; sn[0].is_repeated = 0;
+  spec_schema_t sp;
+  spec_schema_levels(sn, n, &sp);
+  __CPROVER_assume(sp.wf);
   md.schema = e; md.num_schema_elements = n;
-  *pn = n;
-  carquet_error_t err;
-  cqv_work = 0; cqv_depth = 0; cqv_depth_max = 0;
-  return build_schema(&arena, &md, nondet_bool() ? &err : NULL);
-}
-
-void h_file_schema_spec(void) {
-  int32_t n;
-  carquet_schema_t *s = mk_file_schema(&n);
+  carquet_schema_t *s = build_schema(&arena, &md, NULL);
   if (s) {
-    spec_schema_t sp;
-    spec_schema_levels(sn, n, &sp);
-    __CPROVER_assert(s->num_elements == n && s->elements == md.schema, "schema refers to the file's element list");
-    __CPROVER_assert(s->num_leaves >= 0 && s->num_leaves <= n, "leaf count within the element count");
-    if (sp.wf) {
-      CQV_CANARY("well-formed tree reached");
-      __CPROVER_assert(s->num_leaves == sp.num_leaves, "columns are exactly the leaves");
-      for (int j = 0; j < CQV_N; j++) {
-        if (j < sp.num_leaves) {
-          __CPROVER_assert(s->leaf_indices[j] == sp.leaf_index[j], "leaves in depth-first order");
-          __CPROVER_assert(s->max_def_levels[j] == sp.max_def[j], "max_def == optional/repeated nodes on the path");
-          __CPROVER_assert(s->max_rep_levels[j] == sp.max_rep[j], "max_rep == repeated nodes on the path");
-          if (sp.max_def[j] == 2 && sp.max_rep[j] == 1) CQV_CANARY("a leaf at def 2 / rep 1 reached");
-        }
+    CQV_CANARY("well-formed tree built");
+    __CPROVER_assert(s->num_leaves == sp.num_leaves, "columns are exactly the leaves");
+    for (int j = 0; j < CQV_N; j++) {
+      if (j < sp.num_leaves) {
+        __CPROVER_assert(s->leaf_indices[j] == sp.leaf_index[j], "leaves in depth-first order");
+        __CPROVER_assert(s->max_def_levels[j] == sp.max_def[j], "max_def == optional/repeated nodes on the path");
+        __CPROVER_assert(s->max_rep_levels[j] == sp.max_rep[j], "max_rep == repeated nodes on the path");
+        if (sp.max_def[j] == 2 && sp.max_rep[j] == 1) CQV_CANARY("a leaf at def 2 / rep 1 reached");
       }
     }
-    __CPROVER_assert(cqv_depth == 0 && cqv_depth_max <= n, "recursion depth bounded by the element count");
   }
-  CQV_CANARY("file schema harness end");
+  CQV_CANARY("file schema spec harness end");
 }
-
-/* termination bound: one call of traverse_schema_recursive per element (+1) */
-void h_file_schema_work(void) {
-  int32_t n;
-  carquet_schema_t *s = mk_file_schema(&n);
-  __CPROVER_assert(cqv_work <= 2 * (long)n + 1, "C04: traversal work is proportional to the element count");
-  CQV_CANARY("file schema work harness end");
-}
+#endif
